@@ -16,6 +16,9 @@ pub enum Content {
     Gen { len: u64, seed: u64 },
     /// `units` of `unit` bytes each, true = data, false = hole, followed by `tail` data bytes
     Layout { unit: u64, units: Vec<bool>, tail: u64, seed: u64 },
+    /// a file of `len` bytes that is one hole except for the data islands `at` = [(offset, length)] (sorted,
+    /// disjoint, inside the file): for offsets beyond 2 and 4 GiB without writing gigabytes
+    Islands { len: u64, at: Vec<(u64, u64)>, seed: u64 },
 }
 
 impl Content {
@@ -27,6 +30,7 @@ impl Content {
             Content::Bytes(s) => unesc(s).len() as u64,
             Content::Gen { len, .. } => *len,
             Content::Layout { unit, units, tail, .. } => unit * units.len() as u64 + tail,
+            Content::Islands { len, .. } => *len,
         }
     }
     /// data segments [start,end)
@@ -52,6 +56,7 @@ impl Content {
                 }
                 v
             }
+            Content::Islands { at, .. } => at.iter().map(|&(o, n)| (o, o + n)).collect(),
             _ => {
                 if self.len() > 0 {
                     vec![(0, self.len())]
@@ -73,7 +78,7 @@ impl Content {
                 let e = (off + n as u64).min(*len);
                 (off..e).map(|o| gen_byte(*seed, o)).collect()
             }
-            Content::Layout { seed, .. } => {
+            Content::Layout { seed, .. } | Content::Islands { seed, .. } => {
                 let total = self.len();
                 let e = (off + n as u64).min(total);
                 let segs = self.segments();
@@ -103,7 +108,20 @@ impl Content {
         }
         let mut off = 0u64;
         let mut buf = vec![0u8; 1 << 20];
+        let segs = self.segments();
+        use std::os::unix::io::AsRawFd;
         while off < flen {
+            // where both the file on disk and the expected content have a hole, there is nothing to compare
+            let next_exp = segs.iter().find(|&&(_, t)| t > off).map(|&(s, _)| s.max(off)).unwrap_or(flen);
+            if next_exp > off + (1 << 20) {
+                let d = unsafe { libc::lseek(f.as_raw_fd(), off as i64, libc::SEEK_DATA) };
+                let next_disk = if d < 0 { flen } else { d as u64 };
+                let skip = next_exp.min(next_disk) & !4095;
+                if skip > off {
+                    off = skip;
+                    continue;
+                }
+            }
             let n = f.read_at(&mut buf, off).map_err(|e| e.to_string())?;
             if n == 0 {
                 return Err(format!("short read at {}", off));
@@ -490,7 +508,7 @@ fn apply_meta(p: &std::path::Path, e: &Entry) -> Result<(), String> {
 pub fn write_content(p: &std::path::Path, c: &Content) -> Result<(), String> {
     let f = std::fs::OpenOptions::new().write(true).create(true).truncate(true).open(p).map_err(|e| format!("create {:?}: {}", p, e))?;
     match c {
-        Content::Layout { .. } => {
+        Content::Layout { .. } | Content::Islands { .. } => {
             for (s, t) in c.segments() {
                 let mut o = s;
                 while o < t {
@@ -626,20 +644,8 @@ pub fn lstat_node(p: &std::path::Path, hash: bool) -> Option<Node> {
                 h = crate::util::hash_bytes(&b);
                 data = Some(b);
             }
-        } else if let Ok(f) = std::fs::File::open(p) {
-            let mut hh = crate::util::Fnv::new();
-            let mut off = 0u64;
-            let mut b = vec![0u8; 1 << 20];
-            loop {
-                match f.read_at(&mut b, off) {
-                    Ok(0) | Err(_) => break,
-                    Ok(k) => {
-                        hh.write(&b[..k]);
-                        off += k as u64;
-                    }
-                }
-            }
-            h = hh.finish();
+        } else {
+            h = sparse_hash(p);
         }
     }
     Some(Node {
@@ -659,6 +665,70 @@ pub fn lstat_node(p: &std::path::Path, hash: bool) -> Option<Node> {
         hash: h,
         data,
     })
+}
+
+/// Hash of a large file that does not depend on whether zeros are stored or are a hole, and that does not
+/// read the holes: maximal runs of zero bytes enter as their length, other bytes as themselves.
+pub fn sparse_hash(p: &std::path::Path) -> u64 {
+    let f = match std::fs::File::open(p) {
+        Ok(f) => f,
+        Err(_) => return 0,
+    };
+    let flen = f.metadata().map(|m| m.len()).unwrap_or(0);
+    let mut hh = crate::util::Fnv::new();
+    let mut zeros = 0u64;
+    let mut pos = 0u64;
+    let mut b = vec![0u8; 1 << 20];
+    let flush = |hh: &mut crate::util::Fnv, zeros: &mut u64| {
+        if *zeros > 0 {
+            hh.write_raw(&[0]);
+            hh.write_raw(&zeros.to_le_bytes());
+            *zeros = 0;
+        }
+    };
+    let mut segs = seek_map(p);
+    if segs.is_empty() && flen > 0 {
+        // SEEK_DATA unsupported or the file is one hole
+        let c = cstr(p);
+        let fd = unsafe { libc::open(c.as_ptr(), libc::O_RDONLY) };
+        let d = unsafe { libc::lseek(fd, 0, libc::SEEK_DATA) };
+        let unsupported = d < 0 && std::io::Error::last_os_error().raw_os_error() != Some(libc::ENXIO);
+        unsafe { libc::close(fd) };
+        if unsupported {
+            segs.push((0, flen));
+        }
+    }
+    for (s, t) in segs {
+        zeros += s.saturating_sub(pos);
+        let mut off = s;
+        while off < t {
+            let want = ((t - off) as usize).min(b.len());
+            match f.read_at(&mut b[..want], off) {
+                Ok(0) | Err(_) => return hh.finish() ^ 0xdead,
+                Ok(k) => {
+                    let mut i = 0;
+                    while i < k {
+                        if b[i] == 0 {
+                            let j = b[i..k].iter().position(|&c| c != 0).map(|x| i + x).unwrap_or(k);
+                            zeros += (j - i) as u64;
+                            i = j;
+                        } else {
+                            flush(&mut hh, &mut zeros);
+                            let j = b[i..k].iter().position(|&c| c == 0).map(|x| i + x).unwrap_or(k);
+                            hh.write_raw(&b[i..j]);
+                            i = j;
+                        }
+                    }
+                    off += k as u64;
+                }
+            }
+        }
+        pos = t;
+    }
+    zeros += flen.saturating_sub(pos);
+    flush(&mut hh, &mut zeros);
+    hh.write_raw(&flen.to_le_bytes());
+    hh.finish()
 }
 
 /// every entry below root (root itself is ""), keyed by escaped relative path
